@@ -17,6 +17,12 @@
   raised_errors()   unwrap / expect / panics / diverging handlers inside a phase (errors must be returned), R4
   sbom_path_shape() <dir>/<name + per-format text>, total and injective in the format, R4
   elsewhere()       fixed absolute locations independent of the phase arguments (telemetry of the trace feature)
+  ok_requires()     calls whose success is necessary for a value being Ok / Some (and_then closures, `?` + Ok literal, helpers), R1
+  norm_pruned()     norm() + variant constructors as literals + alternatives refuted by a downcast dropped, R3
+  implied_by_variant() / SubstCond   decisions a private function took before returning the variant a caller matches on, R2
+  err_flows()       a failure of a call reaches a given value through Err-propagating adapters / helper returns only, R3
+  decided_by() / replace_norm()   a helper's return table over the variants of the phase result, read row by row, R4 detect
+  zip_rows() / unroll_zip()       FORALL effects over `slots.zip(LITERAL TABLE)` as one effect per row, R7
 """
 from .lib.discard import diverges
 from .lib.paths import strip
@@ -99,6 +105,187 @@ def diverging_unwraps(prog, sl, v, keep=()):
     return out
 
 
+def ok_requires(sl, v, depth=0):
+    """calls whose success is necessary for `v is Ok / Some`: v itself, the receivers of adapters that can only succeed
+    when their receiver did (map / map_err / and_then / `?` ..), what the closure of `x.and_then(f)` returns for the
+    payload of x, the one non-failure alternative of an early-return phi, and the same inside private helpers"""
+    out = []
+    while v[0] in ('updated', 'unwrap'):
+        v = v[1]
+    if depth > 8:
+        return out
+    if v[0] == 'phi':
+        from .lib.value import _err_like
+        good = [x for x in v[1] if not _err_like(x)]
+        if len(good) == 1:
+            out.extend(ok_requires(sl, good[0], depth + 1))
+        return out
+    if v[0] == 'agg' and v[2] in ('Ok', 'Some') and v[1] in ('std::result::Result', 'std::option::Option'):
+        # `let d = read()?; Ok(d)`: a literal success whose payload mentions the payload of x was only built when x
+        # succeeded (`?` returned / unwrap panicked otherwise); alternatives of a phi / select need not all have run
+        def payloads(x):
+            if not isinstance(x, tuple) or not x or x[0] in ('phi', 'select', 'closure') or x[0] in _LEAVES:
+                return
+            if x[0] == 'unwrap':
+                yield x[1]
+            for y in x:
+                if isinstance(y, tuple):
+                    yield from payloads(y)
+        for x in payloads(v):
+            out.extend(ok_requires(sl, x, depth + 1))
+        return out
+    if v[0] != 'call' or not isinstance(v[1], str):
+        return out
+    out.append(v)
+    if _adapter(v):
+        out.extend(ok_requires(sl, v[2][0], depth + 1))
+        if v[1].endswith('::and_then') and len(v[2]) == 2 and v[2][1][0] in ('closure', 'fnitem'):
+            r = sl.apply_closure(v[2][1], (sl.mk_unwrap(v[2][0], 1),))
+            if r is not None:
+                out.extend(ok_requires(sl, r, depth + 1))
+        return out
+    iv = sl.inline_call(v)
+    if iv is not None and iv != v:
+        out.extend(ok_requires(sl, iv, depth + 1))
+    return out
+
+
+def _ctor(prog, v):
+    """('call', '<enum>::<Variant>', args, ..) of a tuple-variant constructor used as a function (`.map(Self::Detect)`)
+    read as the literal it builds"""
+    if v[0] != 'call' or not isinstance(v[1], str) or v[1] in prog.fns or '::' not in v[1]:
+        return v
+    adt, var = v[1].rsplit('::', 1)
+    a = prog.adts.get(adt)
+    for vv in (a['variants'] if a else []):
+        if vv['name'] == var and len(vv['fields']) == len(v[2]):
+            return ('agg', adt, var, tuple((f['name'], x) for f, x in zip(vv['fields'], v[2])))
+    return v
+
+
+def norm_pruned(prog, sl, v, keep=()):
+    """norm(v) with variant constructors read as literals and, under a downcast `(x as V)`, the alternatives of x that are
+    literals of another variant dropped: `(phi(A(p), B(q)) as A).0` is p"""
+    from .lib.value import _phi
+
+    def go(v):
+        if not isinstance(v, tuple) or not v or v[0] in _LEAVES:
+            return v
+        out = tuple(go(x) if isinstance(x, tuple) else x for x in v)
+        out = _ctor(prog, out)
+        if out[0] == 'variant':
+            b = out[1]
+            while b[0] == 'updated':
+                b = b[1]
+            if b[0] == 'phi':
+                al = [x for x in b[1] if not (x[0] == 'agg' and x[2] is not None and x[2] != out[2])]
+                if al:
+                    b = _phi(al)
+            return sl._variant(b, out[2])
+        if out == v:
+            return v
+        if out[0] == 'unwrap':
+            return sl.mk_unwrap(out[1], 1)
+        if out[0] == 'field':
+            return sl._field(out[1], out[2])
+        return out
+    return go(norm(prog, sl, v, keep=keep))
+
+
+# adapters through which an Err / None of the receiver becomes an Err / None of the result
+ERR_PROPAGATING = ('map', 'map_err', 'and_then', 'inspect', 'inspect_err', 'ok_or', 'ok_or_else')
+
+
+def err_flows(sl, v, target, depth=0):
+    """a failure of the call `target` is a failure of v: v is that call, an Err-propagating adapter chain on it, a private
+    helper returning such a value, or a phi with such an alternative"""
+    from .lib.value import canon
+    while v[0] == 'updated':
+        v = v[1]
+    if depth > 8:
+        return False
+    if v[0] == 'phi':
+        return any(err_flows(sl, x, target, depth + 1) for x in v[1])
+    if v[0] != 'call' or not isinstance(v[1], str):
+        return False
+    if v[1] == target[1] and canon(v) == canon(target):
+        return True
+    if _meth(v, ('std::option::Option::', 'std::result::Result::'), ERR_PROPAGATING) and v[2]:
+        return err_flows(sl, v[2][0], target, depth + 1)
+    iv = sl.inline_call(v)
+    return iv is not None and iv != v and err_flows(sl, iv, target, depth + 1)
+
+
+class SubstCond:
+    """a decision taken inside a private helper, in the terms of the helper's caller"""
+
+    def __init__(self, cd, mapping, sl):
+        from .lib.value import subst
+        self._cd, self._m, self._sl = cd, mapping, sl
+        self.kind, self.outcome, self.enum = cd.kind, cd.outcome, cd.enum
+        self.fn, self.sw_bb, self.target = cd.fn, cd.sw_bb, cd.target
+        self.value = subst(cd.value, mapping, sl)
+        self.subject = subst(cd.subject, mapping, sl) if cd.subject is not None else None
+        self.synthetic = True
+
+    def views(self):
+        from .lib.value import subst
+        return [(subst(v, self._m, self._sl), oc) for v, oc in self._cd.views()]
+
+    def __repr__(self):
+        return 'SubstCond(%r)' % (self._cd,)
+
+
+def implied_by_variant(prog, sl, cd):
+    """decisions implied by `cd`: "<value> is of variant V" where the value is (the success payload of) what a private
+    function returned — the decisions common to all the ways that function returns a value that can be of variant V, in
+    the caller's terms.  `match Invocation::from_args(argv)? { Detect(a) => .. }` holds the `name == "detect"` that
+    from_args tested before it built a Detect."""
+    from .lib.tables import arm_defs
+    from .lib.value import subst, canon, _err_like
+    if cd.kind != 'variant' or cd.subject is None or not cd.outcome or not cd.enum:
+        return []
+    v, n = cd.subject, 0
+    for _ in range(8):
+        if v[0] == 'updated':
+            v = v[1]
+        elif v[0] == 'unwrap':
+            v, n = v[1], n + 1
+        elif _is_uoe(v) and diverging_handler(prog, v[2][1]):
+            v, n = v[2][0], n + 1
+        elif v[0] == 'call' and isinstance(v[1], str) and v[1] in ('std::ops::Try::branch',) and v[2]:
+            v = v[2][0]
+        else:
+            break
+    g = prog.fns.get(v[1]) if v[0] == 'call' and isinstance(v[1], str) else None
+    if g is None or g.kind == 'Closure' or g.partial_defs(0):
+        return []
+    m = {(g.path, i): a for i, a in enumerate(v[2]) if i < g.argc}
+    live = g.reachable(0)
+    common = None
+    keep = {}
+    for bb, rv, conds in arm_defs(g, 0, sl):
+        if bb not in live:
+            continue
+        p = rv
+        for _ in range(n):
+            p = sl.mk_unwrap(p, 1)
+        p = norm_pruned(prog, sl, p)
+        while p[0] == 'updated':
+            p = p[1]
+        if p[0] == 'agg' and p[1] == cd.enum and p[2] is not None and p[2] not in cd.outcome:
+            continue        # this way of returning yields another variant
+        if p[0] == 'unwrap' and _err_like(p[1]) or (n == 0 and _err_like(p)):
+            continue        # this way of returning is a failure: no payload
+        cur = {}
+        for c in conds:
+            k = (c.kind, canon(c.subject if c.subject is not None else c.value), c.outcome if not isinstance(c.outcome, frozenset) else tuple(sorted(c.outcome)))
+            cur[k] = c
+        common = set(cur) if common is None else (common & set(cur))
+        keep.update(cur)
+    return [SubstCond(keep[k], m, sl) for k in (common or ())]
+
+
 def eq_views(cd):
     """[(a, b)] for every reading of decision cd as `a == b` holding (`==` taken / `!=` not taken; PartialEq impls of
     the compared type by their resolved or declared name; boolean helpers looked through by Cond.views)"""
@@ -161,6 +348,63 @@ def _replace(v, old, new):
     if not isinstance(v, tuple) or not v:
         return v
     return tuple(_replace(x, old, new) if isinstance(x, tuple) else x for x in v)
+
+
+_LEAVES = ('const', 'param', 'fnitem', 'constitem', 'unknown', 'closure_env', 'upvar')
+
+
+def replace_norm(sl, v, old, new):
+    """v with every occurrence of the sub-value `old` replaced by `new`, and the projections / payloads this exposes
+    re-normalised (`(a, b).1` is b, the payload of `Some(x)` is x)"""
+    if v == old:
+        return new
+    if not isinstance(v, tuple) or not v or v[0] in _LEAVES:
+        return v
+    out = tuple(replace_norm(sl, x, old, new) if isinstance(x, tuple) else x for x in v)
+    if out == v:
+        return v
+    if out[0] == 'unwrap':
+        return sl.mk_unwrap(out[1], 1)
+    if out[0] == 'field':
+        return sl._field(out[1], out[2])
+    if out[0] == 'variant':
+        return sl._variant(out[1], out[2])
+    return out
+
+
+def decided_by(prog, sl, v, enum, host):
+    """calls (made in `host`) inside value v to private workspace functions whose returned value is a table over the
+    variants of ONE value of `enum`: `fn split(r) -> (code, plan) { match r.0 { Fail => (100, None), Pass {p} => (0, p) } }`.
+    [(call value X, [(variant name, row value in the caller's terms, decided subject in the caller's terms)])] — the
+    caller may then reason per row as if the `match` had been written at the call site.  Only complete, disjoint
+    tables whose rows are decided by nothing but the variant are returned."""
+    from .lib.tables import arm_defs
+    from .lib.value import subst, canon
+    out, seen = [], set()
+    adt = prog.adts.get(enum)
+    allv = sorted(x['name'] for x in adt['variants']) if adt else []
+    for x in walk(v):
+        if x[0] != 'call' or not isinstance(x[1], str) or len(x) < 4 or not x[3] or x[3][0] != host.path or x in seen:
+            continue
+        g = prog.fns.get(x[1])
+        if g is None or g.kind == 'Closure' or g.partial_defs(0) or g.crate != host.crate:
+            continue
+        seen.add(x)
+        m = {(g.path, i): a for i, a in enumerate(x[2]) if i < g.argc}
+        rows, subjects = [], set()
+        for bb, rv, conds in arm_defs(g, 0, sl):
+            if bb not in g.reachable(0):
+                continue
+            cds = [cd for cd in conds if cd.kind == 'variant' and cd.enum == enum and cd.subject is not None]
+            others = [cd for cd in conds if cd not in cds]
+            if len(cds) != 1 or others or len(cds[0].outcome) != 1:
+                rows = None
+                break
+            subjects.add(canon(cds[0].subject))
+            rows.append((next(iter(cds[0].outcome)), subst(rv, m, sl), subst(cds[0].subject, m, sl)))
+        if rows and len(subjects) == 1 and sorted(r[0] for r in rows) == allv and allv:
+            out.append((x, rows))
+    return out
 
 
 def err_closure_payload(E, e):
@@ -683,6 +927,79 @@ def same_elements(coll):
     while coll[0] == 'call' and len(coll[2]) == 1 and iters._is_source(coll[1]) and coll[1].endswith(iters.SAME_ELEMS):
         coll = strip(coll[2][0])
     return coll
+
+
+# ---- zipped literal tables (R7: mandatory variables read by a loop over a table) ---------------------------
+# `for (slot, (name, to_err)) in values.iter_mut().zip(TABLE) { *slot = env::var(name).map_err(to_err)?; }` visits row i of
+# the literal TABLE for every i < min(len(values), len(TABLE)).  lib/iters.alts only decomposes a zip of two one-alternative
+# sides; here the rows of the literal side are all visited when the other side is statically at least as long (array
+# literal / array type of the producing call), which turns the one FORALL effect into one effect per row.
+def static_len(prog, v):
+    """number of elements of an array-valued expression, from the literal or from the array type of the call that
+    produced it (`<[String; 4]>::default()`); None when unknown"""
+    v = same_elements(v)
+    for _ in range(6):
+        if v[0] == 'array':
+            return len(v[1])
+        if v[0] == 'repeat' and isinstance(v[2], int):
+            return v[2]
+        if v[0] == 'call' and len(v) > 3 and v[3]:
+            f = prog.fns.get(v[3][0])
+            c = f.call_at(v[3][1]) if f is not None else None
+            n = _array_len(c.dty, {}) if c is not None else None
+            if n is not None:
+                return n
+        if v[0] == 'call' and len(v[2]) == 1 and _last(v[1]) in ('as_slice', 'as_mut_slice', 'as_ref', 'as_mut', 'each_ref', 'each_mut'):
+            v = same_elements(v[2][0])
+            continue
+        return None
+    return None
+
+
+def zip_rows(prog, sl, coll):
+    """[element value] of `zip(A, B)` when every element is known: one side is a literal table of n rows and the other
+    has (statically) at least n elements, or both are literal tables; None otherwise"""
+    from .lib import iters
+    c = same_elements(coll)
+    if not (c[0] == 'call' and c[1] == iters.IT + 'zip' and len(c[2]) == 2):
+        return None
+    sides = []
+    for side in c[2]:
+        al = iters.alts(sl, side)
+        if al and not iters.trivial(al, side) and all(fa is None and not fl for _, fa, fl in al):
+            sides.append([e for e, _, _ in al])
+        else:
+            sides.append(static_len(prog, side))
+    a, b = sides
+    if isinstance(a, list) and isinstance(b, list):
+        n = min(len(a), len(b))
+        return [('tuple', (a[i], b[i])) for i in range(n)]
+    if isinstance(a, list) and isinstance(b, int) and b >= len(a):
+        return [('tuple', (x, ('unknown', 'zip-element'))) for x in a]
+    if isinstance(b, list) and isinstance(a, int) and a >= len(b):
+        return [('tuple', (('unknown', 'zip-element'), x)) for x in b]
+    return None
+
+
+def unroll_zip(E, prog, effs):
+    """effs with every FORALL effect over a fully known zip replaced by one effect per row (element bound to the row)"""
+    from .lib import iters
+    from .lib.effects import Eff
+    out = []
+    for e in effs:
+        rows = zip_rows(prog, E.slicer, e.forall) if e.forall is not None else None
+        if not rows:
+            out.append(e)
+            continue
+        key = iters.loop_key(e.forall)
+        for row in rows:
+            m = {'__repl__': [(key, row)]}
+            r = Eff(e.kind, E.subst(e.path, m) if e.path is not None else None, e.call, e.chain, e.must, None,
+                    tuple(E.subst(a, m) for a in e.args) if e.args is not None else None)
+            r.level, r.level_bb, r.mapping = e.level, e.level_bb, e.mapping
+            r.implied = tuple(E.subst(x, m) for x in e.implied)
+            out.append(r)
+    return out
 
 
 # ---- result builders (R8) -------------------------------------------------------------------------------
